@@ -324,9 +324,10 @@ CLAIMED["C11"] = dict(
          "hypotheses.",
     design_ref="5 / C11",
     note="Frame order: under the C10 lateness hypothesis the frames reach the decoder in stream order, no position "
-         "twice (C11_frame_order, C10_ordered lifted through the pipeline; 11 theorems in all). PARTIAL: byte identity "
-         "with the sender's bitstream (C16 composition), timestamp mapping and recovery liveness are checked by the "
-         "closed-loop oracle only. A "
+         "twice (C11_frame_order, C10_ordered lifted through the pipeline). Byte identity: when the sent payloads are the "
+         "VP8 / H.264 packetisers' output, every whole frame at the decoder is the encoder's buffer byte for byte "
+         "(C11_vp8_bytes, C11_h264_bytes: C11 composed with C16; 13 theorems in all). PARTIAL: timestamp mapping and "
+         "recovery liveness are checked by the closed-loop oracle only. A "
          "retransmission arriving 100 or more positions late resets the jitter buffer and is a precondition on the "
          "input. REMB, statistics, wire codecs and scheduling are not modelled. Tie: differential run against a real "
          "NackGenerator, a real RTCRtpSender (_run_rtp fed scripted frames, NACKs via _handle_rtcp_packet), a real "
